@@ -15,8 +15,12 @@ def register(db):
     db.shape("ContextVar", {})
     db.contract(fn="ContextVar.get", assumed=True, params=["self"], returns="bool", ensures={"v": "result == ghost.inside_mw"},
                 note="IsInsideMiddleware.get() in the current task's context")
-    db.contract(fn="ContextVar.set", assumed=True, params=["self", "value"], modifies=["ghost.inside_mw"],
-                ensures={"v": "ghost.inside_mw == value"}, note="set() affects the current task's context only")
+    db.shape("ContextToken", {"old": "bool"})
+    db.contract(fn="ContextVar.set", assumed=True, params=["self", "value"], modifies=["ghost.inside_mw"], returns="ContextToken",
+                result_fields={"old": "old(ghost.inside_mw)"},
+                ensures={"v": "ghost.inside_mw == value"}, note="set() affects the current task's context only; returns a reset token")
+    db.contract(fn="ContextVar.reset", assumed=True, params=["self", "token"], modifies=["ghost.inside_mw"],
+                ensures={"v": "ghost.inside_mw == token.old"}, note="reset(token) restores the value before the matching set()")
     db.shape("_middleware_wrapper", {"fn": "func[WrappedFn]", "name": "str", "parameters": "opaque",
                                      "_repid_signal_emitter": "Optional[func[Emitter]]"})
     db.contract(fn="WrappedFn.__call__", assumed=True, is_async=True, params=["fn", "*a"], returns="opaque",
@@ -29,11 +33,14 @@ def register(db):
                 note="Middleware.emit_signal: calls the subscribers; never raises an Exception (subscriber wrappers swallow "
                      "them, see Middleware.add_subscriber.<locals>.wrapper)")
     db.contract(fn="spawn:_middleware_wrapper.call_set_context", assumed=True, returns="MwTask",
-                note="create_task copies the context: the child sets the flag in its own copy only")
-    db.shape("MwTask", {}, bases=["Task"])
+                result_fields={"flag_in_child": "True"},
+                note="create_task copies the context: the child (call_set_context, verified below) sets the flag in its own copy only")
+    db.contract(fn="spawn:WrappedFn", assumed=True, params=["fn"], returns="MwTask", result_fields={"flag_in_child": "ghost.inside_mw"},
+                note="create_task(fn(...)): the child runs the operation in a COPY of the creator's context as it is at creation time")
+    db.shape("MwTask", {"flag_in_child": "bool"}, bases=["Task"])
     db.contract(fn="MwTask.__await__", assumed=True, is_async=True, params=["self"], returns="opaque",
-                modifies=["ghost.last_ret"], effects=[("sig", "('call', True)")], ensures={"ret": "ghost.last_ret == result"},
-                raises=[Raises("Exception", mode="may", anysub=True, effects=[("sig", "('call', True)")])],
+                modifies=["ghost.last_ret"], effects=[("sig", "('call', self.flag_in_child)")], ensures={"ret": "ghost.last_ret == result"},
+                raises=[Raises("Exception", mode="may", anysub=True, effects=[("sig", "('call', self.flag_in_child)")])],
                 note="awaiting the child task = the contract of call_set_context (verified below) run in a copied context; "
                      "being cancelled while awaiting cancels the child")
 
